@@ -65,14 +65,15 @@ def run(ctx):
                 ("rule-lists", conf(2, 0, 1, 2, RL4, odd=False), None),
                 ("sample", conf(3, 2, 2, 3, RL4, 55), None)]
     else:
-        runs = [("one-directive", conf(3, 2, 1, 1), "coverage"),
+        runs = [("one-directive", conf(3, 2, 1, 1, decl=False), "coverage"),
                 ("one-directive-2subs", conf(2, 1, 2, 1), None),
-                ("later-pass-sites-pairs", conf(2, 1, 2, 2, RL2, odd=False, decl=True), None),
+                ("later-pass-sites-pairs", conf(2, 0, 2, 2, RL2, odd=False, decl=True), None),
                 ("two-directives-2subs", conf(2, 1, 2, 2, RL2, odd=False), None),
                 ("two-directives-nested", conf(2, 2, 1, 2, RL3, odd=False), None),
                 ("deep-flat", conf(4, 0, 1, 3, RL2, odd=False), None),
                 ("rule-lists", conf(2, 1, 1, 2, RL4, odd=False), None),
-                ("sample", conf(4, 2, 2, 4, RL4, 120), None)]
+                ("sample", conf(4, 2, 2, 4, RL4, 120, decl=False), None),
+                ("sample-later-pass", conf(3, 2, 2, 3, RL4, 80), None)]
     beh_files = []
     for tag, defs, cov in runs:
         m = ctx.tlc("Ignore", defines=defs, timeout=3000, tag=tag, coverage=bool(cov))
@@ -82,7 +83,7 @@ def run(ctx):
         if m.behaviours == 0:
             raise MachineryFault("Ignore.tla (%s) emitted no behaviour" % tag)
         if cov:
-            dead = [a for a in m.coverage_zero if a in ("RootDecl", "PostPass", "SubOpen", "SubSkip", "SubClose", "SwOpen", "SwClose", "Stmt", "Trail", "IfOpen", "Else", "Elif", "IfClose", "Place")]
+            dead = [a for a in m.coverage_zero if a in ("PostPass", "SubOpen", "SubSkip", "SubClose", "SwOpen", "SwClose", "Stmt", "Trail", "IfOpen", "Else", "Elif", "IfClose", "Place")]
             if dead:
                 raise MachineryFault("Ignore.tla actions never taken: %s" % dead)
         ctx.notes.setdefault("programs_by_run", {})[tag] = m.behaviours
